@@ -181,9 +181,9 @@ class ContractMixin:
             st.assume(self.ref_wf(st, res))
             if c.fresh_result:
                 st.assume(res.term >= pre.top)
-                if is_list(rk) and rk.target.oneshot_possible:
-                    # a freshly returned iterator / generator has not been iterated yet
-                    st.assume(z3.Not(self.ghost_flag(st, res.term, "consumed")))
+            if is_list(rk) and rk.target.oneshot_possible:
+                # a returned iterator / generator has not been iterated yet
+                st.assume(z3.Not(self.ghost_flag(st, res.term, "consumed")))
         env2 = dict(env)
         env2["result"] = res
         for wname, (_gv, wkind) in c.witnesses.items():
